@@ -512,6 +512,11 @@ inductive IExpr where
 def IExpr.eval (i base : Nat) : IExpr → Nat
   | .i => i | .base => base | .add a b => a.eval i base + b.eval i base | .lit n => n | .unrecognised => 1000000
 
+/-- on which outcomes the branch arm of callBin (`case fnext != nil`: the host call is a condition) writes the call's frame slot -/
+inductive BranchStore where
+  | both | trueOnly | falseOnly | never | unrecognised
+  deriving DecidableEq, Repr
+
 /-- the choices of the source text (regenerated by extract/cmd/c07) -/
 structure Facts where
   arms : List Arm                 -- inner switch of callBin, in order
@@ -545,6 +550,8 @@ structure Facts where
   returnDstIdx : IExpr            -- aReturn: f.data[b+i]
   returnBaseIsChildPos : Bool     -- b := childPos(n)
   defaultDstIdx : IExpr           -- default: data[n.findex+i]
+  branchDstIdx : IExpr            -- branch arm: index := n.findex; getFrame(f, level).data[index].SetBool(b)
+  branchStore : BranchStore       -- … written before `if b { return tnext }; return fnext`: on both outcomes
   nestedReadIdx : IExpr           -- consumer of nested call results: ind := c.findex + j
   wrapFrameIsDefTypes : Bool      -- newFrame(f, len(def.types), …)
   wrapFramePerCall : Bool         -- … and that newFrame call is INSIDE the function literal given to reflect.MakeFunc
@@ -711,6 +718,7 @@ inductive Ctx where
   | assignX (blanks : List Bool)   -- a, _, c := f()  /  a, b = f()
   | ret (childPos : Nat)           -- return …, f(), … : f is operand number childPos
   | deflt (findex : Nat)           -- results stay in the call node's frame cells (expression, nested call, statement)
+  | cond (findex : Nat)            -- the call is a condition (if / for / operand of && || !): the bool result goes to the call's cell
   deriving DecidableEq, Repr
 
 inductive Slot where
@@ -728,6 +736,7 @@ def routeOneY (f : Facts) (c : Ctx) (i : Nat) : Nat × Slot :=
     (f.assignSrcIdx.eval i 0, if blanks.getD d false then .dropped else .lhs d)
   | .ret b => (i, .result (f.returnDstIdx.eval i (if f.returnBaseIsChildPos then b else 0)))
   | .deflt fi => (i, .tmp (f.defaultDstIdx.eval i fi))
+  | .cond fi => (i, .tmp (f.branchDstIdx.eval i fi + i))
 
 def routeY (f : Facts) (c : Ctx) (nOut : Nat) : List (Nat × Slot) :=
   (List.range nOut).map (routeOneY f c)
@@ -738,9 +747,40 @@ def routeSpecOne (c : Ctx) (i : Nat) : Nat × Slot :=
   | .assignX blanks => (i, if blanks.getD i false then .dropped else .lhs i)
   | .ret b => (i, .result (b + i))
   | .deflt fi => (i, .tmp (fi + i))
+  | .cond fi => (i, .tmp (fi + i))
 
 def routeSpec (c : Ctx) (nOut : Nat) : List (Nat × Slot) :=
   (List.range nOut).map (routeSpecOne c)
+
+/-! ### a host call as a condition, executed repeatedly in one frame
+
+  The call's cell is what the enclosing `&&` / `||` (or the assignment `ok := hp.F(x) || y`) reads after the call branched. In
+  a loop the same cell is written by every execution of the call. -/
+
+def branchStep (s : BranchStore) (slot r : Bool) : Bool :=
+  match s with
+  | .both => r
+  | .trueOnly => if r then true else slot
+  | .falseOnly => if r then slot else false
+  | _ => slot
+
+/-- the content of the call's cell after each of the successive executions of the call (`slot`: what the cell held before) -/
+def branchReadsY (s : BranchStore) : Bool → List Bool → List Bool
+  | _, [] => []
+  | slot, r :: rs => branchStep s slot r :: branchReadsY s (branchStep s slot r) rs
+
+/-- how the enclosing construct consumes the call's result: `if` / `for` / `!` and a right operand only follow the branch the
+    call took (tnext / fnext); `&&` / `||` with the call as LEFT operand read the call's cell again when they compute their value
+    (which constructs do is a property of cfg.go, observed by the correspondence run, not extracted) -/
+inductive CondUse where
+  | branchOnly | rereadsCell
+  deriving DecidableEq, Repr
+
+/-- what the consumer sees after each of the successive calls; the cell of a fresh frame holds false -/
+def condSeenY (s : BranchStore) (u : CondUse) (rs : List Bool) : List Bool :=
+  match u with
+  | .branchOnly => rs
+  | .rereadsCell => branchReadsY s false rs
 
 /-! ## 7. The reflect.MakeFunc wrapper (genFunctionWrapper, getFunc) and the in-script call -/
 
